@@ -17,7 +17,8 @@ A sliver description (JSON-serialisable):
 Domain restrictions (each with its reason, see also the ASSUMPTIONS of the property modules):
   - every JSONField value has at least one non-default field (an all-default object encodes as '' which the
     library's own convention reads as "absent", DESIGN §1.9);
-  - plain strings are non-empty and never the word 'None' (same absence convention);
+  - plain strings may be any text incl. the words 'None'/'none'/'null' (free-text properties also the empty
+    string): the in-memory backends keep them as they are;
   - image_ref / image_type contain no comma and are generated together (documented fate sharing);
   - Location lat/lon are never 0.0 (codec fidelity of single values is C03's subject, not C02's);
   - sub-interfaces exist only under DedicatedPort interfaces, SmartNIC components carry exactly one service
@@ -121,8 +122,8 @@ _SPECIAL_TEXT = ["a", "0", "1", "-1", "true", "false", "null", "none", "{}", "[]
 def _text(max_size=12, no_comma=False):
     alpha = _ALPHA.replace(",", "") if no_comma else _ALPHA
     special = [s for s in _SPECIAL_TEXT if not (no_comma and "," in s)]
-    return st.one_of(st.sampled_from(special), st.text(alphabet=alpha, min_size=1, max_size=max_size)) \
-        .filter(lambda s: s != "None")
+    return st.one_of(st.sampled_from(special), st.text(alphabet=alpha, min_size=1, max_size=max_size),
+                     st.sampled_from(["None", "none", "null"]))
 
 
 TEXT = _text()
